@@ -175,7 +175,11 @@ class MediaList(cssutils.util._NewListBase):
         # TODO: remove duplicates?
         newMedium = self.__prepareset(newMedium)
         if newMedium:
-            self._seq[index] = (newMedium, 'MediaQuery', None, None)
+            # index counts media queries only, like item() and length
+            positions = [
+                i for i, item in enumerate(self._seq) if item.type == 'MediaQuery'
+            ]
+            self._seq[positions[index]] = (newMedium, 'MediaQuery', None, None)
 
     def appendMedium(self, newMedium):
         """Add the `newMedium` to the end of the list.
